@@ -25,7 +25,7 @@ inductive Op where
   | readFns (c : Cls)
   /-- `C().h` on a fresh instance -/
   | read (c : Cls)
-  deriving Repr
+  deriving Repr, DecidableEq
 
 def setOwn (st : State) (c : Cls) (h : HookObj) : State :=
   { st with own := fun x => if x = c then some h else st.own x }
